@@ -226,6 +226,12 @@ def b_type(c):
     if len(c.args) == 1 and is_const(c.args[0]) and c.args[0][2] is None:
         c.ret(G("builtin:NoneType"), pure=False)
         return
+    if len(c.args) == 1 and isinstance(c.args[0], tuple) and c.args[0] and c.args[0][0] == "excobj":
+        # type(err) of a caught exception: its class (raise type(err)(msg) re-raises the same class)
+        name = c.args[0][1]
+        cq = [q for q in c.w.prog.classes if q.split(".")[-1] == name]
+        c.ret(G("class:" + cq[0]) if len(cq) == 1 else G("builtin:" + name), pure=False)
+        return
     c.ret(None, pure=False)
 
 
